@@ -507,7 +507,7 @@ func Solve(o *Obligation, timeoutS int, confirm bool) *Result {
 			// same goal takes 0.4 s with one seed and a minute with another), and an obligation near the budget must not turn
 			// into an alarm on code where it holds: race five differently seeded runs and the two other solvers side by
 			// side with an extended budget; the first decisive answer wins and stops the rest.
-			ext := 4 * timeoutS
+			ext := 6 * timeoutS
 			if ext < 30 {
 				ext = 30
 			}
